@@ -71,6 +71,32 @@ def read_group_lock_filename(sample):
     return sample.read_group_file + "_lock"
 
 
+def chromosome_file_name_parts(chr_id):
+    # what follows "<prefix>.save_" / "<prefix>.read_group_" in the names of the temporary files of one reference sequence
+    return [chr_id + tail for tail in ["", "_groups", "_bamstat", "_collected", "_processed", "_read_stat",
+                                       "_transcript_stat"]] + ["multimappers_" + chr_id]
+
+
+def check_chromosome_file_names(chr_ids):
+    # the names of the reference sequences become parts of file names: a name with a path separator cannot be used, and
+    # sequences named X and X_bamstat (X_groups, multimappers_X, info, lock, ...) would share a temporary file - which of
+    # the two chromosome tasks writes it last then depends on the number of threads
+    owners = {"info": "the whole experiment", "lock": "the whole experiment"}
+    for chr_id in chr_ids:
+        if os.sep in chr_id or (os.altsep and os.altsep in chr_id):
+            logger.critical("Reference sequence name %s contains '%s' and cannot be used in the names of per-sequence "
+                            "files. Rename the sequence in the reference genome, annotation and alignments." %
+                            (chr_id, os.sep))
+            exit(-2)
+        for part in chromosome_file_name_parts(chr_id):
+            if part in owners:
+                logger.critical("Reference sequence %s cannot be processed: its temporary file *_%s is also a temporary "
+                                "file of %s. Rename the sequence in the reference genome, annotation and alignments." %
+                                (chr_id, part, owners[part]))
+                exit(-2)
+            owners[part] = "sequence " + chr_id
+
+
 def clean_locks(chr_ids, base_name, fname_function):
     for chr_id in chr_ids:
         fname = fname_function(base_name, chr_id)
@@ -529,6 +555,7 @@ class DatasetProcessor:
 
     def process_all_samples(self, input_data):
         logger.info("Processing " + proper_plural_form("experiment", len(input_data.samples)))
+        check_chromosome_file_names(self.get_chr_list())
         for sample in input_data.samples:
             self.process_sample(sample)
         logger.info("Processed " + proper_plural_form("experiment", len(input_data.samples)))
